@@ -1058,6 +1058,7 @@ func (c *Ctx) equalsLine(a, b *Tree) (string, string) {
 func runC07(c *Ctx) {
 	r := c.R
 	c.St.Rule = "pairs (tree, copy with exactly one difference at a random depth, or the same tree with permuted field order), compared in both argument orders; non-trivial = depth >= 1 and size >= 3; distinct by the pair"
+	c.nilArguments()
 	opts := &TreeOpts{MaxDepth: 5, MaxWidth: 6}
 	for i := 0; i < c.N(4000, 80000); i++ {
 		a := r.Container(opts, "[{"[r.Intn(2)])
